@@ -3,7 +3,7 @@ example sets, and what it returns checked with Python's own `re`:
 
   C03  every example is matched in full by at least one returned expression (after the stripping the caller asked for);
   C13  every returned expression compiles, is anchored at both ends, matches at least one example, and asking for capture
-       groups changes nothing but the parentheses;
+       groups changes nothing in which examples each expression matches;
   C14  the result depends only on the multiset of examples and the seed: the same examples in another order, or as a
        {string: count} dictionary, give the same list; the global random generator is left as it was found.
 
@@ -139,7 +139,7 @@ def run_rule(run, p, pid):
                'metacharacter, unicode letters and digits, padding, empty strings, repeats, long runs - returns expressions of which at '
                'least one matches each example in full (Python re as the judge)',
         'C13': 'every expression extract() returns on %d (example set, options) cases compiles, is anchored at both ends (the final $ not '
-               'an escaped literal), matches at least one example, and with tag=True is the untagged expression with parentheses added',
+               'an escaped literal), matches at least one example, and with tag=True the expressions match exactly the examples the untagged ones match',
         'C14': 'extract(), evaluated on %d (example set, options) cases, returns the same list for the examples reversed, rotated and given '
                'as a {string: count} dictionary, with and without a seed, and leaves the global random generator as it found it',
     }
@@ -199,9 +199,30 @@ def run_rule(run, p, pid):
                 if not any(c.match(s) for s in subjects):
                     probs.append('%r matches none of the examples' % r)
             if opts.get('tag'):
+                # the property: the tagged expressions match exactly the same examples as the untagged ones (the text may differ
+                # in more than parentheses - x{2} for xx - as long as what is matched does not)
                 plain, err2 = extract(p, list(examples), **{k: v for k, v in opts.items() if k != 'tag'})
-                if plain is None or sorted(_ungroup(r) for r in res) != sorted(plain):
-                    probs.append('with capture groups %s, without %s' % (res, plain))
+                # judged on the examples and on near misses of them (a character dropped or doubled, the empty string): an expression
+                # that only differs in grouping agrees with its twin on every string
+                probes = list(subjects) + ['']
+                for s0 in subjects[:8]:
+                    for i in range(min(len(s0), 12)):
+                        probes.append(s0[:i] + s0[i + 1:])
+                        probes.append(s0[:i] + s0[i] + s0[i:])
+                probes = list(dict.fromkeys(probes))
+
+                def matched(rs):
+                    out = []
+                    for r in rs:
+                        try:
+                            c = re.compile(r, flags)
+                        except re.error:
+                            out.append(('does not compile', r))
+                            continue
+                        out.append(frozenset(s for s in probes if c.fullmatch(s) or (c.match(s) and c.match(s).end() == len(s))))
+                    return sorted(out, key=lambda x: sorted(x) if isinstance(x, frozenset) else [repr(x)])
+                if plain is None or len(plain) != len(res) or matched(res) != matched(list(plain)):
+                    probs.append('with capture groups %s, without %s: not the same strings matched (examples and near misses of them)' % (res, plain))
         else:
             opts = {k: v for k, v in opts.items() if not k.startswith('#')}
             variants = [('reversed', list(reversed(examples))), ('rotated', examples[1:] + examples[:1]),
